@@ -414,6 +414,15 @@ pipeline::~pipeline() {
     while( first_filter ) {
         d1::base_filter* f = first_filter;
         if( input_buffer* b = f->my_input_buffer ) {
+            // Items still parked in front of this filter (the pipeline was cancelled) are destroyed like
+            // the item of a cancelled stage_task
+            for( Token i = 0; i < b->array_size; ++i ) {
+                task_info& info = b->array[i];
+                if( info.is_valid && info.my_object ) {
+                    f->finalize(info.my_object);
+                    info.reset();
+                }
+            }
             b->~input_buffer();
             deallocate_memory(b);
         }
